@@ -473,6 +473,13 @@ func Verif_C20_E4_MemWriteBatch() {
 	wbI, err := newMemWriteBatch(me)
 	vsym.Assert(err == nil, "batch")
 	var wb WriteBatch = wbI
+	// optionally the first key already holds a committed counter value
+	if vsym.Choose("precommitted", 2) == 1 {
+		pv := c20U64(vsym.U64("preval") % 16)
+		wb.Put(keys[0], pv)
+		vsym.Assert(wb.Commit() == nil, "pre commit")
+		committed.put(keys[0], pv)
+	}
 	pending := committed.clone()
 	nops := 3
 	if vsym.Thorough() {
